@@ -342,7 +342,15 @@ let dispatch mode f =
           let ps = if paths = "" then [] else List.map path_of (split '|' paths) in
           (match run_full budget (rows_of (arch_id arch)) (disp optab) (disp regtab) files lex (path_of cwd) ps
                    (List.init (String.length root) (fun i -> n_of_int (Char.code root.[i]))) with
-           | Ok (dd, st) -> "OK\t" ^ hex_of_bytes dd ^ (if opts = "syms" then "\tSYMS\t" ^ dump_symtab st else "")
+           | Ok (dd, st) ->
+             let lines f = match f st with
+               | None -> "FAIL"
+               | Some ls -> String.concat ";" (List.sort compare (List.map (fun l ->
+                   Printf.sprintf "%d|%s|%d|%s" (int_of_n l.sl_cat)
+                     (match l.sl_bank with Some b -> string_of_int (int_of_z b) | None -> "-")
+                     (int_of_z l.sl_value) (hex_of_bytes l.sl_name)) ls)) in
+             "OK\t" ^ hex_of_bytes dd ^ (if opts = "syms" || opts = "exp" then "\tSYMS\t" ^ dump_symtab st else "")
+             ^ (if opts = "exp" then "\tSYMX\t" ^ lines export_sym ^ "\tNLX\t" ^ lines export_nl else "")
            | Diag k -> if int_of_n k = 99 then "NEEDLEX" else Printf.sprintf "ERR\t%d" (int_of_n k)
            | Crash CkFuel -> "FUEL"
            | Crash _ -> "PANIC")
